@@ -43,16 +43,19 @@ type Result struct {
 	Scenario     json.RawMessage `json:"scenario,omitempty"`
 	Key          string          `json:"key"`
 	NonTrivial   bool            `json:"nontrivial"`
-	Sessions     int             `json:"sessions"`
-	Steps        int             `json:"steps"`
-	Bytes        int64           `json:"bytes"`
-	SimTimeMs    int64           `json:"sim_ms"`
-	Faults       map[string]int  `json:"faults,omitempty"`
-	Probes       map[string]int  `json:"probes,omitempty"`
-	Shapes       []uint64        `json:"shapes,omitempty"`
-	Hashes       []uint64        `json:"hashes,omitempty"`
-	Sample       any             `json:"sample,omitempty"`
-	Exhaustive   bool            `json:"exhaustive,omitempty"`
+	// Recycle asks the driver to give this worker process no further jobs
+	// (process-wide resources such as landlock layers are nearly used up).
+	Recycle    bool           `json:"recycle,omitempty"`
+	Sessions   int            `json:"sessions"`
+	Steps      int            `json:"steps"`
+	Bytes      int64          `json:"bytes"`
+	SimTimeMs  int64          `json:"sim_ms"`
+	Faults     map[string]int `json:"faults,omitempty"`
+	Probes     map[string]int `json:"probes,omitempty"`
+	Shapes     []uint64       `json:"shapes,omitempty"`
+	Hashes     []uint64       `json:"hashes,omitempty"`
+	Sample     any            `json:"sample,omitempty"`
+	Exhaustive bool           `json:"exhaustive,omitempty"`
 }
 
 func (r *Result) Probe(name string, n int) {
